@@ -126,7 +126,12 @@ def check_cfg(ctx, fx, cfg):
         elif ka:
             ctx.ok("R05.9", "holder:%s@%s" % (o["def"], cfg), fx.adts[o["def"]]["loc"] if o["def"] in fx.adts else None, HOLDERS[o["def"]])
     # R05.7 closed mailbox -> graceful exit
-    run_loops(ctx, fx, "R05.7", {"L9", "L11", "L4", "L13"})
+    res57 = run_loops(ctx, fx, "R05.7", {"L9", "L11", "L4", "L13"})
+    for lf, kind, lb, ln in res57:
+        # must-have: the loop can observe the closed mailbox at all (a dequeue that never yields None — e.g.
+        # select_next_some on a fused mailbox — keeps the actor running with no handle left)
+        none_edges = [e for e in nfa.edges_labelled(ln, "sw:Option::None@") if e[1].split("@")[1] in ("next", "mailbox")]
+        ctx.require(len(none_edges) >= 1, "R05.7", "%s-loop-sees-closed-mailbox@%s" % (kind, cfg), "the loop has no branch for the closed mailbox (None from the dequeue): dropping the last strong handle would not end the actor", fn=lf["def"], site=lf["loc"], detail={"edges": len(none_edges)})
     # R05.8 every strong kind owns a mailbox sender
     for k in own.STRONG_KINDS:
         o = fx.owns_of(k, "adt")
